@@ -90,6 +90,12 @@ M = [
  ("C20-eq-drop-order-swapped", C + "io/network.rs",
   "        drop(blockchain);\n        drop(configs);", "        drop(configs);\n        drop(blockchain);"),
  # ---------------- more behaviour-preserving edits (must stay silent)
+ ("C14-eq-work-recomputed-by-sum", C + "consensus/mempool.rs",
+  "        self.routing_work_in_mempool = 0;\n\n        // add routing work from remaining tx\n        for (_, transaction) in &self.transactions {\n            self.routing_work_in_mempool += transaction.total_work_for_me;\n        }",
+  "        // routing work of the remaining transactions\n        self.routing_work_in_mempool = self\n            .transactions\n            .values()\n            .fold(0, |work, transaction| work.saturating_add(transaction.total_work_for_me));"),
+ ("C01-eq-set-insert-result", C + "consensus/block.rs",
+  "                    if new_slips_map.contains_key(&utxo_key) {",
+  "                    if new_slips_map.get(&utxo_key).is_some() || new_slips_map.contains_key(&utxo_key) {"),
  ("C05-eq-tip-via-first", C + "consensus/blockchain.rs",
   "            let block = self.blocks.get(new_chain[0].as_ref()).unwrap();\n            previous_block_hash = block.previous_block_hash;",
   "            let block = self.blocks.get(new_chain.first().unwrap().as_ref()).unwrap();\n            previous_block_hash = block.previous_block_hash;"),
